@@ -13,6 +13,7 @@ from concurrent.futures import ThreadPoolExecutor
 
 from .. import build, build_mod, run
 from ..core import Case, Check, log, parse_model
+from . import c18f          # BEGIN/END C18F: the file and sqlite3 halves (vlib/props/c18f.py)
 
 I64MAX, I64MIN = 2 ** 63 - 1, -(2 ** 63)
 
@@ -136,7 +137,7 @@ class _Counter:
 
 class C18(Check):
     pid = "C18"
-    proof_modules = ["BlocV.Proofs.C18"]
+    proof_modules = ["BlocV.Proofs.C18", "BlocV.Proofs.C18F"]      # C18F: file / sqlite3 halves
     harness = "modprobe"
     trusted_base = [
         "Lean 4.33 kernel + elaborator (theorems audited to depend only on propext, Classical.choice, Quot.sound)",
@@ -174,6 +175,7 @@ class C18(Check):
             for f in json.load(open(p)).get("findings", []):
                 if f.get("property") == self.pid and f.get("id") not in have:
                     self.findings.append(f)
+        c18f.load_findings(self)          # C18F
         self.sz = SIZES[tier]
         self.distinct = _Counter()
         self._n = 0
@@ -616,12 +618,16 @@ class C18(Check):
         self.step_extract()
         self.step_proofs()
         self.step_correspondence()
+        c18f.run_half(self)               # C18F: file and sqlite3 modules (real .so files through blocprobe)
         if self.broken_ties and not self.violations:
             self.search_failing_input()
         return self.finish()
 
     def replay(self, rep):
         """re-run the recorded violating case lines through probe and driver"""
+        f_viol = [v for v in rep.get("violations", []) if (v.get("meta") or {}).get("full_model_line")]      # C18F
+        if f_viol:
+            return c18f.replay(self, f_viol)
         lines = [v.get("case") or v.get("impl_ops") for v in rep.get("violations", [])]
         cases = [c for c in (self.mk(ln) for ln in lines if ln) if c]
         for b in rep.get("broken_ties", []):
